@@ -35,7 +35,10 @@ CONSTANTS
   MaxCalls,      \* ReadSlices invocations, at most (bounds the model)
   InMsgs,        \* sequence of [qos, tag]: what the broker publishes to the client, in this order
   RecordHist,    \* FALSE in the liveness configurations (hist would make every state distinct)
-  DEV_F4, DEV_F6, DEV_F2, DEV_F10, DEV_F19, DEV_F25
+  DEV_F4, DEV_F6, DEV_F2, DEV_F10, DEV_F19, DEV_F25,
+  Blocking       \* TRUE: a process may be released from its gate into a receive on the write semaphore that blocks (it then
+                 \* waits at no gate, queued); FALSE: such a move exists only once it can complete (fewer states: the
+                 \* process stays at its gate meanwhile, which is where the replay keeps it)
 
 IdMod  == 16384
 Space(l) == IF l = 1 THEN 32768 ELSE 49152
@@ -53,8 +56,13 @@ LevelOf(m) == CASE m \in {"PublishAtLeastOnce", "PublishAtLeastOnceRetained"} ->
 Pk(t, id, tag, dup, qos) == [t |-> t, id |-> id, tag |-> tag, dup |-> dup, qos |-> qos]
 NoPk == Pk("none", 0, 0, FALSE, 0)
 NewConn == [c2b |-> <<>>, tail |-> FALSE, taken |-> 0, b2c |-> <<>>, closed |-> FALSE, dead |-> FALSE, eof |-> FALSE]
+NoSlot == [p |-> "", n |-> 0]
+\* (slot: bytes were accepted in the current WriteTo call of a vectored write: an expiry then counts as progress)
 Loc0 == [op |-> 1, prev |-> NILCONN, conn |-> NILCONN, err |-> "", lvl |-> 0, seqNo |-> 0, ctx |-> "", after |-> "",
-         inline |-> FALSE, backlog |-> FALSE, herr |-> FALSE, val |-> 0, slot |-> FALSE, who |-> ""]
+         inline |-> FALSE, backlog |-> FALSE, herr |-> FALSE, val |-> 0, slot |-> FALSE, who |-> NoSlot, blk |-> ""]
+\* a value arrives on the done channel of a Ping callback: it matters only while that very call still waits for it
+Pong(s, who, v) == IF who.p # "" /\ s.loc[who.p].op = who.n THEN [s EXCEPT !.pong[who.p] = v] ELSE s
+Current(s, who) == who.p # "" /\ s.loc[who.p].op = who.n
 
 Has(f, k) == k \in DOMAIN f
 Put(f, k, v) == (k :> v) @@ f
@@ -69,7 +77,7 @@ St0 ==
    queue |-> [l \in 1..2 |-> <<>>],
    pack |-> NoPk, readConn |-> NILCONN, inbuf |-> <<>>,
    ctxDone |-> FALSE, online |-> FALSE, offline |-> TRUE,
-   pingSlot |-> "",                          \* process whose Ping waits, "" = free
+   pingSlot |-> [p |-> "", n |-> 0],         \* the callback in c.pingAck: process and number of its call; p = "" when free
    pong |-> [p \in Writers |-> "none"],      \* what a waiting Ping received on its done channel
    pingSent |-> [p \in Writers |-> FALSE],   \* the PINGREQ of the Ping in progress was written
    strayPong |-> FALSE,                      \* a PINGRESP was handed to a Ping whose PINGREQ was not written yet
@@ -77,6 +85,7 @@ St0 ==
    subdone |-> [p \in Writers |-> "none"],   \* what a waiting Subscribe received on its done channel
    utxN |-> 0,                               \* unorderedTxs.n
    store |-> <<>>, conns |-> <<>>,
+   wq |-> <<>>,                              \* processes blocked on the write semaphore, in the order they blocked
    rseq |-> 0,                               \* ruggedPersistence.seqNo: every Save stores the next number with the record
    gen |-> 1, stops |-> 0, warn |-> 0, damaged |-> 0,   \* generation of the client; stops so far; warnings of the last AdoptSession
    broker |-> [session |-> FALSE, awaiting |-> {}, delivered |-> <<>>,
@@ -102,13 +111,20 @@ ExErr(s, tag, e) == IF Has(s.exch, tag) THEN [s EXCEPT !.exch[tag].errs = Append
 ExClose(s, tag) == IF Has(s.exch, tag) THEN [s EXCEPT !.exch[tag].closed = TRUE] ELSE s
 
 \* outcomes a Write on connection c can have, and the state after paying for an injected failure
+\* "err" = connection reset; "timeout" = the write deadline expired without a byte accepted (the connection stays
+\* usable); "part" (below) = the deadline expired after some bytes: the library goes on with the rest of the packet
 WriteOutcomes(s, c) == IF s.conns[c].closed THEN {"closed"} ELSE IF s.conns[c].dead THEN {"err"}
-                       ELSE {"ok"} \cup (IF s.budget.write > 0 THEN {"err"} ELSE {})
-PayW(s, c, o) == IF o = "err" /\ ~s.conns[c].dead THEN Spend(s, "write") ELSE s
+                       ELSE {"ok"} \cup (IF s.budget.write > 0 THEN {"err", "timeout"} ELSE {})
+\* (an injected failure is a connection reset: nothing passes in either direction afterwards)
+PayW(s, c, o) == IF o = "err" /\ ~s.conns[c].dead THEN [Spend(s, "write") EXCEPT !.conns[c].dead = TRUE]
+                 ELSE IF o = "timeout" THEN Spend(s, "write") ELSE s
+\* a deadline expiry with progress: the process stays at its write gate, an incomplete packet is on the connection
+Partial(s, c) == IF s.budget.write > 0 /\ ~s.conns[c].closed /\ ~s.conns[c].dead
+                 THEN {Mv([Spend(s, "write") EXCEPT !.conns[c].tail = TRUE], "conn.Write", "part")} ELSE {}
 ReadOutcomes(s, c) == IF s.conns[c].closed THEN {"closed"} ELSE IF s.conns[c].dead THEN {"err"}
                       ELSE IF s.conns[c].b2c # <<>> THEN {"ok"} \cup (IF s.budget.read > 0 THEN {"err"} ELSE {})
                       ELSE IF s.conns[c].eof THEN {"eof"} ELSE {}
-PayR(s, c, o) == IF o = "err" /\ ~s.conns[c].dead THEN Spend(s, "read") ELSE s
+PayR(s, c, o) == IF o = "err" /\ ~s.conns[c].dead THEN [Spend(s, "read") EXCEPT !.conns[c].dead = TRUE] ELSE s
 StoreOutcomes(s) == {"ok"} \cup (IF s.budget.store > 0 THEN {"err"} ELSE {})
 PayS(s, o) == IF o = "err" THEN Spend(s, "store") ELSE s
 
@@ -131,7 +147,7 @@ Dispatch(s, buf) ==
       [] p.t = "PUBCOMP" -> IF p.id = KeyOf(2, s.completed) /\ s.completed < s.received /\ s.queue[2] # <<>> THEN "m.del" ELSE "off.sel"
       [] p.t = "PUBREL" -> "l.del"
       [] p.t = "PINGRESP" -> "r.pong"
-      [] p.t = "SUBACK" -> "r.suback"
+      [] p.t \in {"SUBACK", "UNSUBACK"} -> "r.suback"
       [] OTHER -> "off.sel"
 
 \* unorderedTxs.breakAll: every pending subscribe transaction receives ErrBreak
@@ -146,9 +162,24 @@ FlushStart(s) == IF s.pack = NoPk THEN Dispatch(s, s.inbuf) ELSE IF s.pack.t = "
 \* ReadSlices returns; ErrClosed starts termCallbacks
 RdReturn(s, e) == LET r == RetP(s, "rd", "ReadSlices", e) IN
                   IF e = "closed" THEN G([r EXCEPT !.termLeft = 2], "rd", "t.spawn") ELSE G(r, "rd", "call")
+(* A receive on the write semaphore.  Go serves blocked receivers in the order they blocked and hands a released   *)
+(* value over at once, so a process that finds the semaphore taken (or others waiting) blocks inside the library,    *)
+(* at no gate (ws.block), queued in wq; k names where it continues once it is served (SemWake).                     *)
+TakeW(s, p, k) ==
+  LET v == s.writeSem  h == IF v = CLOSED THEN CLOSED ELSE HELD IN
+  CASE k = "lw"     -> [G(s, p, "lw.got") EXCEPT !.writeSem = h, !.loc[p].val = v]        \* lockWrite
+    [] k = "wn"     -> [G(s, p, "wn.got") EXCEPT !.writeSem = h, !.loc[p].val = v]        \* writeBuffersNoWait (publisher, read routine)
+    [] k = "kw"     -> [G(s, p, "k.write") EXCEPT !.writeSem = HELD]                       \* connect
+    [] k = "failw"  -> [G(s, p, "k.failw") EXCEPT !.writeSem = HELD, !.loc[p].val = v]     \* connect failed
+    [] k = "offw"   -> [G(s, p, "off.waited") EXCEPT !.writeSem = h, !.loc[p].val = v]     \* toOffline
+    [] k = "closew" -> [G(s, p, "close.waited") EXCEPT !.writeSem = HELD]                  \* Close
+    [] OTHER        -> [G(s, p, "disc.write") EXCEPT !.writeSem = HELD, !.loc[p].val = v]  \* Disconnect
+RecvW(s, p, k) == IF s.writeSem # HELD /\ s.wq = <<>> THEN {TakeW(s, p, k)}
+                  ELSE IF Blocking \/ k \in {"offw", "closew"}     \* (those two have closed the connection before: always a move)
+                    THEN {[G(s, p, "ws.block") EXCEPT !.wq = Append(@, p), !.loc[p].blk = k]}
+                  ELSE {}
 \* connect failed: <-c.writeSem, then hook k.failw
-FailW(s, e) == IF s.writeSem = HELD THEN {} ELSE
-  {[G(s, "rd", "k.failw") EXCEPT !.writeSem = HELD, !.loc["rd"].err = e, !.loc["rd"].val = s.writeSem]}
+FailW(s, e) == RecvW([s EXCEPT !.loc["rd"].err = e], "rd", "failw")
 
 \* resend of level l from sequence number n (e = error so far)
 Resend(s, l, n, e) ==
@@ -182,17 +213,20 @@ RdMoves(s) ==
          {Mv([G(s, "rd", "k.fail") EXCEPT !.writeSem = IF L.val = CLOSED THEN CLOSED ELSE DOWN, !.connSem = L.prev], "k.failw", "ok")}
     [] at = "k.fail" -> {Mv(RdReturn(s, L.err), "k.fail", "ok")}
     [] at = "k.dial" ->
-         (IF Len(s.conns) < MaxConns /\ ~s.ctxDone
+         \* (a Dialer may still hand out a connection although the context got cancelled meanwhile: the abort goroutine closes it)
+         (IF Len(s.conns) < MaxConns
           THEN {Mv([G(s, "rd", "k.wconn") EXCEPT !.conns = Append(@, NewConn), !.loc["rd"].conn = Len(s.conns) + 1,
                                                   !.loc["rd"].herr = FALSE, !.abortSt = "wait", !.doneClosed = FALSE], "dial", "ok")}
           ELSE {})
          \cup (IF s.budget.dial > 0 /\ ~s.ctxDone THEN {Mv(x, "dial", "err") : x \in FailW(Spend(s, "dial"), "dial")} ELSE {})
          \cup (IF s.ctxDone THEN {Mv([G(s, "rd", "k.cancelled") EXCEPT !.connSem = L.prev], "dial", "cancelled")} ELSE {})
+         \* (any Dialer error counts as the cancellation once the context is done)
+         \cup (IF s.ctxDone /\ s.budget.dial > 0 THEN {Mv([G(Spend(s, "dial"), "rd", "k.cancelled") EXCEPT !.connSem = L.prev], "dial", "err")} ELSE {})
     [] at = "k.cancelled" -> {Mv(RdReturn(s, "closed"), "k.cancelled", "ok")}
     [] at = "k.wconn" ->  \* Write of CONNECT
-         {IF o = "ok" THEN Mv([G(s, "rd", "k.rconn") EXCEPT !.conns[c].c2b = Append(@, Pk("CONNECT", 0, 0, FALSE, 0))], "conn.Write", o)
+         {IF o = "ok" THEN Mv([G(s, "rd", "k.rconn") EXCEPT !.conns[c].c2b = Append(@, Pk("CONNECT", 0, 0, FALSE, 0)), !.conns[c].tail = FALSE], "conn.Write", o)
           ELSE Mv([G(PayW(s, c, o), "rd", "k.shaken") EXCEPT !.loc["rd"].herr = TRUE], "conn.Write", o)
-          : o \in WriteOutcomes(s, c)}
+          : o \in WriteOutcomes(s, c)} \cup Partial(s, c)
     [] at = "k.rconn" ->  \* Read of CONNACK
          {IF o = "ok"
           THEN LET first == s.conns[c].b2c[1]  good == first.t = "CONNACK" /\ first.id = 0 IN
@@ -212,7 +246,7 @@ RdMoves(s) ==
          ELSE IF L.herr THEN {Mv(x, "k.sync2", "ok") : x \in FailW(CloseC(s, c), "handshake")}
          ELSE IF s.seqSem[1] = "free" THEN {Mv([G(s, "rd", "k.seq1") EXCEPT !.seqSem[1] = "held"], "k.sync2", "ok")} ELSE {}
     [] at = "k.seq1" -> IF s.seqSem[2] = "free" THEN {Mv([G(s, "rd", "k.seq2") EXCEPT !.seqSem[2] = "held"], "k.seq1", "ok")} ELSE {}
-    [] at = "k.seq2" -> IF s.writeSem # HELD THEN {Mv([G(s, "rd", "k.write") EXCEPT !.writeSem = HELD], "k.seq2", "ok")} ELSE {}
+    [] at = "k.seq2" -> {Mv(x, "k.seq2", "ok") : x \in RecvW(s, "rd", "kw")}
     [] at = "k.write" -> {Mv([G(s, "rd", "k.unconn") EXCEPT !.connSem = c], "k.write", "ok")}
     [] at = "k.unconn" -> {Mv(Resend(s, 1, s.acked, ""), "k.unconn", "ok")}
     [] at = "rs.load" ->
@@ -223,9 +257,9 @@ RdMoves(s) ==
          LET l == L.lvl  n == L.seqNo  key == KeyOf(l, n)  rec == s.store[key]
              pkt == IF rec.kind = "REL" THEN Pk("PUBREL", key, 0, FALSE, 0) ELSE Pk("PUBLISH", key, rec.tag, n < s.submitN[l], l)
          IN {IF o = "ok"
-             THEN Mv(Resend([s EXCEPT !.conns[c].c2b = Append(@, pkt), !.submitN[l] = IF n >= @ THEN n + 1 ELSE @], l, n + 1, ""), "conn.Write", o)
+             THEN Mv(Resend([s EXCEPT !.conns[c].c2b = Append(@, pkt), !.conns[c].tail = FALSE, !.submitN[l] = IF n >= @ THEN n + 1 ELSE @], l, n + 1, ""), "conn.Write", o)
              ELSE Mv(Resend(PayW(s, c, o), l, n, "write"), "conn.Write", o)
-             : o \in WriteOutcomes(s, c)}
+             : o \in WriteOutcomes(s, c)} \cup Partial(s, c)
     [] at = "k.unseq1" ->
          IF L.err # "" THEN {Mv([G(s, "rd", "k.unseq2") EXCEPT !.seqSem[2] = "free"], "k.unseq1", "ok")}
          ELSE {Mv(Resend(s, 2, s.completed, ""), "k.unseq1", "ok")}
@@ -250,9 +284,9 @@ RdMoves(s) ==
          ELSE {Mv(G(s, "rd", "wn.write"), "wn.got", "ok")}
     [] at = "wn.write" ->
          LET w == L.val IN
-         {IF o = "ok" THEN Mv([G(s, "rd", "w.ok") EXCEPT !.conns[w].c2b = Append(@, s.pack), !.writeSem = w], "conn.Write", o)
+         {IF o = "ok" THEN Mv([G(s, "rd", "w.ok") EXCEPT !.conns[w].c2b = Append(@, s.pack), !.conns[w].tail = FALSE, !.writeSem = w], "conn.Write", o)
           ELSE Mv([G(CloseC(PayW(s, w, o), w), "rd", "w.fail") EXCEPT !.writeSem = PENDING], "conn.Write", o)
-          : o \in WriteOutcomes(s, w)}
+          : o \in WriteOutcomes(s, w)} \cup Partial(s, w)
     [] at = "w.ok" ->
          LET s1 == [s EXCEPT !.pack = NoPk] IN
          {Mv(IF L.ctx = "flush" THEN G(s1, "rd", Dispatch(s1, s1.inbuf)) ELSE NextPacket(s1), "w.ok", "ok")}
@@ -291,27 +325,25 @@ RdMoves(s) ==
          {Mv([G(s, "rd", "wn.take") EXCEPT !.store = Del(@, MarkFlag + p.id), !.pack = Pk("PUBCOMP", p.id, 0, FALSE, 0),
                                             !.loc["rd"].ctx = "pubcomp"], "store.Delete", "ok")}
          \cup (IF s.budget.store > 0 THEN {Mv(ToOff(Spend(s, "store"), "store"), "store.Delete", "err")} ELSE {})
-    [] at = "pong.slot" -> {Mv(NextPacket([s EXCEPT !.pong[L.who] = "ok", !.strayPong = @ \/ ~s.pingSent[L.who]]), "pong.slot", "ok")}   \* close(ack)
+    [] at = "pong.slot" -> {Mv(NextPacket([Pong(s, L.who, "ok") EXCEPT !.strayPong = @ \/ (Current(s, L.who) /\ ~s.pingSent[L.who.p])]), "pong.slot", "ok")}   \* close(ack)
     (* --- toOffline --------------------------------------------------------- *)
     [] at = "off.lock" ->
          IF L.val = CLOSED THEN {Mv(G(s, "rd", "off.end"), "off.lock", "ok")}
          ELSE {Mv([G(CloseC(s, s.readConn), "rd", "off.sigmid") EXCEPT !.online = FALSE], "off.lock", "ok")}
-    [] at = "off.nolock" ->  \* readConn.Close() ; <-c.writeSem ; hook off.waited
-         IF s.writeSem = HELD THEN {}   \* (the close itself is part of this move once the semaphore is free)
-         ELSE {Mv([G(CloseC(s, s.readConn), "rd", "off.waited") EXCEPT !.writeSem = IF s.writeSem = CLOSED THEN CLOSED ELSE HELD,
-                                                                      !.loc["rd"].val = s.writeSem], "off.nolock", "ok")}
+    [] at = "off.nolock" ->  \* readConn.Close(): interrupts the write in progress; then <-c.writeSem blocks (off.wait, no gate)
+         {Mv(x, "off.nolock", "ok") : x \in RecvW(CloseC(s, s.readConn), "rd", "offw")}
     [] at = "off.waited" ->
          IF L.val = CLOSED THEN {Mv(G(s, "rd", "off.end"), "off.waited", "ok")}
          ELSE {Mv([G(s, "rd", "off.sigmid") EXCEPT !.online = FALSE], "off.waited", "ok")}
     [] at = "off.sigmid" -> {Mv([G(s, "rd", "off.unlock") EXCEPT !.offline = TRUE, !.writeSem = PENDING], "off.sigmid", "ok")}
     [] at = "off.unlock" ->
          LET s1 == [s EXCEPT !.readConn = NILCONN, !.inbuf = <<>>] IN
-         IF s.pingSlot # "" THEN {Mv([G(s1, "rd", "off.ping") EXCEPT !.loc["rd"].who = s.pingSlot, !.pingSlot = ""], "off.unlock", "ok")}
+         IF s.pingSlot # NoSlot THEN {Mv([G(s1, "rd", "off.ping") EXCEPT !.loc["rd"].who = s.pingSlot, !.pingSlot = NoSlot], "off.unlock", "ok")}
          ELSE {Mv(G(BreakAll(s1), "rd", "off.end"), "off.unlock", "ok")}
-    [] at = "off.ping" -> {Mv([G(BreakAll(s), "rd", "off.end") EXCEPT !.pong[L.who] = "break"], "off.ping", "ok")}
+    [] at = "off.ping" -> {Mv(G(BreakAll(Pong(s, L.who, "break")), "rd", "off.end"), "off.ping", "ok")}
     [] at = "f4.spin" -> {Mv(s, "lw.wait", "ok")}   \* lw.got, lw.wait, lw.woke for ever
     [] at = "term.ping" ->
-         LET s1 == [s EXCEPT !.pong[L.who] = "break"] IN
+         LET s1 == Pong(s, L.who, "break") IN
          {Mv(IF s.termLeft = 0 THEN G(BreakAll(s1), "rd", "idle") ELSE G(s1, "rd", "t.join"), "term.ping", "ok")}
     [] OTHER -> {}
 
@@ -320,18 +352,16 @@ RdMoves(s) ==
 Settle(s) ==
   LET at == s.pc["rd"]  L == s.loc["rd"] IN
   CASE at = "wn.take" ->   \* conn, ok := <-c.writeSem (may block: then the move does not exist)
-         IF s.writeSem = HELD THEN [ok |-> FALSE, s |-> s]
-         ELSE IF DEV_F4 /\ s.writeSem = PENDING
+         IF DEV_F4 /\ s.writeSem = PENDING /\ s.wq = <<>>
            THEN \* pinned tree: lockWrite waits for a connect that only this very routine could make (F4)
                 [ok |-> TRUE, s |-> G(s, "rd", "f4.spin")]
-         ELSE [ok |-> TRUE, s |-> [G(s, "rd", "wn.got") EXCEPT !.writeSem = IF s.writeSem = CLOSED THEN CLOSED ELSE HELD,
-                                                               !.loc["rd"].val = s.writeSem]]
+         ELSE LET r == RecvW(s, "rd", "wn") IN IF r = {} THEN [ok |-> FALSE, s |-> s] ELSE [ok |-> TRUE, s |-> CHOOSE x \in r : TRUE]
     [] at = "r.ret" ->     \* ReadSlices returns the message at the head of the buffer
          LET p == s.inbuf[1]
              s1 == IF p.qos = 1 THEN [s EXCEPT !.pack = Pk("PUBACK", p.id, 0, FALSE, 0)] ELSE s
          IN [ok |-> TRUE, s |-> [G(RetP(s1, "rd", p.tag, "msg"), "rd", "call") EXCEPT !.loc["rd"].ctx = "returned"]]
     [] at = "r.pong" ->    \* PINGRESP: a waiting Ping is released (hook pong.slot), else tolerated
-         IF s.pingSlot # "" THEN [ok |-> TRUE, s |-> [G(s, "rd", "pong.slot") EXCEPT !.loc["rd"].who = s.pingSlot, !.pingSlot = ""]]
+         IF s.pingSlot # NoSlot THEN [ok |-> TRUE, s |-> [G(s, "rd", "pong.slot") EXCEPT !.loc["rd"].who = s.pingSlot, !.pingSlot = NoSlot]]
          ELSE [ok |-> TRUE, s |-> NextPacket(s)]
     [] at = "r.suback" ->  \* SUBACK: the pending transaction (if any) is completed; unknown identifiers are tolerated
          LET p == s.inbuf[1] IN
@@ -351,7 +381,7 @@ Settle(s) ==
          ELSE [ok |-> TRUE, s |-> RdReturn(s, L.err)]
     [] at = "t.spawn" ->   \* termCallbacks: two helpers start; the ping slot is emptied; wg.Wait
          LET s1 == [s EXCEPT !.pc["term1"] = "t.wait", !.pc["term2"] = "t.wait"] IN
-         IF s.pingSlot # "" THEN [ok |-> TRUE, s |-> [G(s1, "rd", "term.ping") EXCEPT !.loc["rd"].who = s.pingSlot, !.pingSlot = ""]]
+         IF s.pingSlot # NoSlot THEN [ok |-> TRUE, s |-> [G(s1, "rd", "term.ping") EXCEPT !.loc["rd"].who = s.pingSlot, !.pingSlot = NoSlot]]
          ELSE [ok |-> TRUE, s |-> G(s1, "rd", "t.join")]
     [] OTHER -> [ok |-> TRUE, s |-> s]
 
@@ -403,22 +433,22 @@ PubMoves(s, p) ==
          \cup (IF s.budget.store > 0 THEN {Mv([G(Spend(s, "store"), p, "q.unseq") EXCEPT !.seqSem[l] = "free", !.loc[p].err = "store", !.rseq = @ + 1], "store.Save", "err")} ELSE {})
     [] at = "q.saved" ->
          IF L.backlog THEN {Mv([G(ExErr(s, tag, "down"), p, "q.unseq") EXCEPT !.seqSem[l] = "free"], "q.saved", "ok")}
-         ELSE IF s.writeSem = HELD THEN {}
-         ELSE {Mv([G(s, p, "wn.got") EXCEPT !.writeSem = IF s.writeSem = CLOSED THEN CLOSED ELSE HELD, !.loc[p].val = s.writeSem], "q.saved", "ok")}
+         ELSE {Mv(x, "q.saved", "ok") : x \in RecvW(s, p, "wn")}
     [] at = "wn.got" ->
          IF L.val = CLOSED THEN {Mv([G(ExErr(s, tag, "closed"), p, "q.unseq") EXCEPT !.seqSem[l] = "free"], "wn.got", "ok")}
          ELSE IF L.val \in {PENDING, DOWN} THEN {Mv([G(ExErr(s, tag, "down"), p, "q.unseq") EXCEPT !.seqSem[l] = "free", !.writeSem = L.val], "wn.got", "ok")}
          ELSE {Mv(G(s, p, "wn.write1"), "wn.got", "ok")}
     [] at = "wn.write1" ->  \* header buffer of the vectored write
          LET w == L.val IN
-         {IF o = "ok" THEN Mv([G(s, p, "wn.write2") EXCEPT !.conns[w].tail = TRUE], "conn.Write", o)
+         {IF o = "ok" THEN Mv([G(s, p, "wn.write2") EXCEPT !.conns[w].tail = TRUE, !.loc[p].slot = TRUE], "conn.Write", o)
           ELSE Mv([G(CloseC(PayW(s, w, o), w), p, "w.fail") EXCEPT !.writeSem = PENDING], "conn.Write", o)
-          : o \in WriteOutcomes(s, w)}
+          : o \in WriteOutcomes(s, w)} \cup Partial(s, w)
     [] at = "wn.write2" ->  \* payload buffer
          LET w == L.val  pkt == Pk("PUBLISH", KeyOf(l, s.acceptN[l] - 1), tag, FALSE, l) IN
-         {IF o = "ok" THEN Mv([G(s, p, "w.ok") EXCEPT !.conns[w].c2b = Append(@, pkt), !.conns[w].tail = FALSE, !.writeSem = w], "conn.Write", o)
-          ELSE Mv([G(CloseC(PayW(s, w, o), w), p, "w.fail") EXCEPT !.writeSem = PENDING], "conn.Write", o)
-          : o \in WriteOutcomes(s, w)}
+         {IF o = "ok" THEN Mv([G(s, p, "w.ok") EXCEPT !.conns[w].c2b = Append(@, pkt), !.conns[w].tail = FALSE, !.writeSem = w, !.loc[p].slot = FALSE], "conn.Write", o)
+          ELSE IF o = "timeout" /\ L.slot THEN Mv([PayW(s, w, o) EXCEPT !.loc[p].slot = FALSE], "conn.Write", o)   \* retried with the rest
+          ELSE Mv([G(CloseC(PayW(s, w, o), w), p, "w.fail") EXCEPT !.writeSem = PENDING, !.loc[p].slot = FALSE], "conn.Write", o)
+          : o \in WriteOutcomes(s, w)} \cup {[mv EXCEPT !.s.loc[p].slot = FALSE] : mv \in Partial(s, w)}
     [] at = "w.ok" -> {Mv([G(s, p, "q.unseq") EXCEPT !.submitN[l] = s.acceptN[l], !.seqSem[l] = "free"], "w.ok", "ok")}
     [] at = "w.fail" -> {Mv([G(ExErr(s, tag, "submit"), p, "q.unseq") EXCEPT !.seqSem[l] = "free"], "w.fail", "ok")}
     [] at = "q.unseq" -> {Mv(NextOp(s, p, op.m, L.err), "q.unseq", "ok")}
@@ -429,13 +459,14 @@ PubMoves(s, p) ==
 (* Requests through lockWrite: Publish (at most once), Ping, Subscribe     *)
 
 \* lockWrite's select: the write semaphore (quit channels are nil in the model)
-LwSelect(s, p) ==
-  IF s.writeSem = HELD THEN {}
-  ELSE {[G(s, p, "lw.got") EXCEPT !.writeSem = IF s.writeSem = CLOSED THEN CLOSED ELSE HELD, !.loc[p].val = s.writeSem]}
+\* When somebody else holds the semaphore the process blocks in that select, inside the library and before any
+\* further gate (lw.block); it is served in its turn (wq, SemWake).
+LwSelect(s, p) == RecvW(s, p, "lw")
 
 ReqPacket(s, p, op) ==
   CASE op.m = "Ping" -> Pk("PINGREQ", 0, 0, FALSE, 0)
     [] op.m = "Subscribe" -> Pk("SUBSCRIBE", s.loc[p].seqNo, 0, FALSE, 0)
+    [] op.m = "Unsubscribe" -> Pk("UNSUBSCRIBE", s.loc[p].seqNo, 0, FALSE, 0)
     [] OTHER -> Pk("PUBLISH", 0, op.tag, FALSE, 0)
 
 \* the request failed before or during submission: release what it held, return
@@ -444,8 +475,8 @@ ReqFail(s, p, op, e) ==
          \* repaired tree: the callback is installed under the write lock, so before that there is nothing to release;
          \* after a failed write the read routine releases it (toOffline), as for any connection loss
          IF ~DEV_F25 THEN NextOp(s, p, op.m, e)
-         ELSE [G(IF s.pingSlot = p THEN [s EXCEPT !.pingSlot = ""] ELSE s, p, "ping.clean") EXCEPT !.loc[p].err = e]
-    [] op.m = "Subscribe" -> NextOp([s EXCEPT !.subs = Del(@, s.loc[p].seqNo)], p, op.m, e)
+         ELSE [G(IF s.pingSlot.p = p THEN [s EXCEPT !.pingSlot = NoSlot] ELSE s, p, "ping.clean") EXCEPT !.loc[p].err = e]
+    [] op.m \in {"Subscribe", "Unsubscribe"} -> NextOp([s EXCEPT !.subs = Del(@, s.loc[p].seqNo)], p, op.m, e)
     [] OTHER -> NextOp(s, p, op.m, e)
 
 ReqMoves(s, p) ==
@@ -455,11 +486,11 @@ ReqMoves(s, p) ==
            IF s.ctxDone THEN {Mv(NextOp(s, p, op.m, "closed"), op.m, "ok")}
            ELSE IF ~DEV_F25 THEN {Mv(x, op.m, "ok") : x \in LwSelect([s EXCEPT !.pong[p] = "none", !.pingSent[p] = FALSE], p)}
            \* pinned tree (F25): the callback was installed before lockWrite
-           ELSE IF s.pingSlot = "" THEN {Mv([G(s, p, "ping.slot") EXCEPT !.pingSlot = p, !.pong[p] = "none", !.pingSent[p] = FALSE], op.m, "ok")}
+           ELSE IF s.pingSlot = NoSlot THEN {Mv([G(s, p, "ping.slot") EXCEPT !.pingSlot = [p |-> p, n |-> L.op], !.pong[p] = "none", !.pingSent[p] = FALSE], op.m, "ok")}
            ELSE {Mv(G(s, p, "ping.max"), op.m, "ok")}
-         ELSE IF op.m = "Subscribe" THEN
-           \* startTx, then lockWrite
-           LET id == 24576 + (s.utxN % 8192)
+         ELSE IF op.m \in {"Subscribe", "Unsubscribe"} THEN
+           \* startTx (one counter for both kinds, an identifier space each), then lockWrite
+           LET id == (IF op.m = "Subscribe" THEN 24576 ELSE 16384) + (s.utxN % 8192)
                s1 == [s EXCEPT !.utxN = @ + 1, !.subs = Put(@, id, p), !.subdone[p] = "none", !.loc[p].seqNo = id]
            IN {Mv(x, op.m, "ok") : x \in LwSelect(s1, p)}
          ELSE {Mv(x, op.m, "ok") : x \in LwSelect(s, p)}
@@ -472,7 +503,7 @@ ReqMoves(s, p) ==
          ELSE IF L.val = PENDING THEN {Mv(G([s EXCEPT !.writeSem = PENDING], p, "lw.wait"), "lw.got", "ok")}
          ELSE IF op.m = "Ping" /\ ~DEV_F25 THEN
            \* install the callback with the write lock held, or give the lock back: ErrMax
-           IF s.pingSlot = "" THEN {Mv([G(s, p, "ping.slot") EXCEPT !.pingSlot = p], "lw.got", "ok")}
+           IF s.pingSlot = NoSlot THEN {Mv([G(s, p, "ping.slot") EXCEPT !.pingSlot = [p |-> p, n |-> L.op]], "lw.got", "ok")}
            ELSE {Mv([G(s, p, "ping.max") EXCEPT !.writeSem = L.val], "lw.got", "ok")}
          ELSE {Mv(G(s, p, IF op.m = "Publish" THEN "lw.write1" ELSE "lw.write"), "lw.got", "ok")}
     [] at = "lw.wait" ->   \* select { ctx.Done ; Online ; 20 ms tick }
@@ -482,28 +513,41 @@ ReqMoves(s, p) ==
     [] at = "lw.woke" -> {Mv(x, "lw.woke", "ok") : x \in LwSelect(s, p)}
     [] at = "lw.write1" -> \* header buffer of the vectored write (Publish)
          LET w == L.val IN
-         {IF o = "ok" THEN Mv([G(s, p, "lw.write") EXCEPT !.conns[w].tail = TRUE], "conn.Write", o)
+         {IF o = "ok" THEN Mv([G(s, p, "lw.write") EXCEPT !.conns[w].tail = TRUE, !.loc[p].slot = TRUE], "conn.Write", o)
           ELSE Mv([G(CloseC(PayW(s, w, o), w), p, "w.fail") EXCEPT !.writeSem = PENDING], "conn.Write", o)
-          : o \in WriteOutcomes(s, w)}
+          : o \in WriteOutcomes(s, w)} \cup Partial(s, w)
     [] at = "lw.write" ->
          LET w == L.val IN
          {IF o = "ok" THEN Mv([G(s, p, "w.ok") EXCEPT !.conns[w].c2b = Append(@, ReqPacket(s, p, op)), !.conns[w].tail = FALSE, !.writeSem = w,
-                                                     !.pingSent[p] = (op.m = "Ping")], "conn.Write", o)
-          ELSE Mv([G(CloseC(PayW(s, w, o), w), p, "w.fail") EXCEPT !.writeSem = PENDING], "conn.Write", o)
-          : o \in WriteOutcomes(s, w)}
+                                                     !.pingSent[p] = (op.m = "Ping"), !.loc[p].slot = FALSE], "conn.Write", o)
+          ELSE IF o = "timeout" /\ L.slot THEN Mv([PayW(s, w, o) EXCEPT !.loc[p].slot = FALSE], "conn.Write", o)   \* retried with the rest
+          ELSE Mv([G(CloseC(PayW(s, w, o), w), p, "w.fail") EXCEPT !.writeSem = PENDING, !.loc[p].slot = FALSE], "conn.Write", o)
+          : o \in WriteOutcomes(s, w)} \cup {[mv EXCEPT !.s.loc[p].slot = FALSE] : mv \in Partial(s, w)}
     [] at = "w.fail" -> {Mv(ReqFail(s, p, op, "submit"), "w.fail", "ok")}
     [] at = "ping.clean" -> {Mv(NextOp(s, p, op.m, L.err), "ping.clean", "ok")}
     [] at = "w.ok" ->
          IF op.m = "Publish" THEN {Mv(NextOp(s, p, op.m, ""), "w.ok", "ok")}
          ELSE {Mv(G(s, p, "req.wait"), "w.ok", "ok")}   \* blocked until the response (or a break) arrives; no gate here
     [] at = "ping.done" -> {Mv(NextOp([s EXCEPT !.pong[p] = "none"], p, op.m, IF s.pong[p] = "ok" THEN "" ELSE "break"), "ping.done", "ok")}
-    [] at = "sub.done" -> {Mv(NextOp([s EXCEPT !.subdone[p] = "none"], p, op.m, IF s.subdone[p] = "ok" THEN "" ELSE "break"), "sub.done", "ok")}
+    [] at \in {"sub.done", "unsub.done"} -> {Mv(NextOp([s EXCEPT !.subdone[p] = "none"], p, op.m, IF s.subdone[p] = "ok" THEN "" ELSE "break"), at, "ok")}
+    \* the quit channel of the call was closed while it awaited its response (hooks ping.quit, sub.quit, unsub.quit)
+    [] at = "ping.quit" -> \* the callback stays in the slot until the read routine consumes it (F26)
+         {Mv(NextOp(s, p, op.m, "abandoned"), "ping.quit", "ok")}
+    [] at \in {"sub.quit", "unsub.quit"} -> \* endTx releases the slot
+         {Mv(NextOp([s EXCEPT !.subs = Del(@, s.loc[p].seqNo), !.subdone[p] = "none"], p, op.m, "abandoned"), at, "ok")}
     [] OTHER -> {}
 
 \* a waiting request wakes up on its own when its done channel is served (hook ping.done / sub.done follows)
 ReqWake(s) ==
-  {G(s, p, IF Ops(p)[s.loc[p].op].m = "Ping" THEN "ping.done" ELSE "sub.done")
+  {G(s, p, CASE Ops(p)[s.loc[p].op].m = "Ping" -> "ping.done" [] Ops(p)[s.loc[p].op].m = "Unsubscribe" -> "unsub.done" [] OTHER -> "sub.done")
    : p \in {q \in Writers : s.pc[q] = "req.wait" /\ (IF Ops(q)[s.loc[q].op].m = "Ping" THEN s.pong[q] # "none" ELSE s.subdone[q] # "none")}}
+
+\* The application closes the quit channel of a call that awaits its response.  (Only there: before submission
+\* lockWrite's select has the write semaphore ready as well, and Go would choose at random.)
+QuitMoves(s) ==
+  {[s |-> G(s, p, CASE Ops(p)[s.loc[p].op].m = "Ping" -> "ping.quit" [] Ops(p)[s.loc[p].op].m = "Unsubscribe" -> "unsub.quit" [] OTHER -> "sub.quit"), p |-> p]
+   : p \in {q \in Writers : s.pc[q] = "req.wait" /\ Ops(q)[s.loc[q].op].quit = "later"
+                              /\ (IF Ops(q)[s.loc[q].op].m = "Ping" THEN s.pong[q] = "none" ELSE s.subdone[q] = "none")}}
 
 (* ----------------------------------------------------------------------- *)
 (* Close                                                                   *)
@@ -521,12 +565,37 @@ CloseMoves(s, p) ==
            ELSE {Mv(G(s, p, "close.nowrite"), "close.conn", "ok")}
     [] at = "close.write" ->    \* (conn.Close()) ; deferred: blockSignalChan(onlineSig) ; hook close.sigmid
          {Mv([G(IF L.val >= 1 THEN CloseC(s, L.val) ELSE s, p, "close.sigmid") EXCEPT !.online = FALSE], "close.write", "ok")}
-    [] at = "close.nowrite" ->  \* conn.Close() ; <-c.writeSem ; hook close.waited
-         IF s.writeSem = HELD THEN {}
-         ELSE {Mv([G(CloseC(s, L.prev), p, "close.waited") EXCEPT !.writeSem = HELD], "close.nowrite", "ok")}
+    [] at = "close.nowrite" ->  \* conn.Close(): interrupts the write in progress; then <-c.writeSem blocks (close.wait, no gate)
+         {Mv(x, "close.nowrite", "ok") : x \in RecvW(CloseC(s, L.prev), p, "closew")}
     [] at = "close.waited" -> {Mv([G(s, p, "close.sigmid") EXCEPT !.online = FALSE], "close.waited", "ok")}
     [] at = "close.sigmid" ->   \* clearSignalChan(offlineSig) ; close(writeSem) ; close(connSem) ; return
          {Mv(NextOp([s EXCEPT !.offline = TRUE, !.writeSem = CLOSED, !.connSem = CLOSED], p, "Close", ""), "close.sigmid", "ok")}
+    [] OTHER -> {}
+
+(* ----------------------------------------------------------------------- *)
+(* Disconnect (quit is nil): like Close, but it waits for the write lock   *)
+(* and sends DISCONNECT first                                              *)
+
+DiscMoves(s, p) ==
+  LET L == s.loc[p]  at == s.pc[p] IN
+  CASE at = "call" -> {Mv([G(s, p, "disc.cancel") EXCEPT !.ctxDone = TRUE], "Disconnect", "ok")}
+    [] at = "disc.cancel" ->    \* conn, ok := <-c.connSem
+         IF s.connSem = HELD THEN {}
+         ELSE {Mv([G(s, p, "disc.conn") EXCEPT !.connSem = IF s.connSem = CLOSED THEN CLOSED ELSE HELD, !.loc[p].prev = s.connSem], "disc.cancel", "ok")}
+    [] at = "disc.conn" ->      \* select { case conn = <-c.writeSem } ; hook disc.write
+         IF L.prev = CLOSED THEN {Mv(NextOp(s, p, "Disconnect", "closed"), "disc.conn", "ok")}
+         ELSE {Mv(x, "disc.conn", "ok") : x \in RecvW(s, p, "disc")}
+    [] at = "disc.write" ->
+         IF L.val \in {PENDING, DOWN} THEN {Mv([G(s, p, "disc.sigmid") EXCEPT !.online = FALSE, !.loc[p].err = "down"], "disc.write", "ok")}
+         ELSE {Mv(G(s, p, "disc.wio"), "disc.write", "ok")}
+    [] at = "disc.wio" ->       \* Write of DISCONNECT, then conn.Close(); deferred: blockSignalChan(onlineSig) ; hook disc.sigmid
+         LET w == L.val IN
+         {IF o = "ok" THEN Mv([G(CloseC([s EXCEPT !.conns[w].c2b = Append(@, Pk("DISCONNECT", 0, 0, FALSE, 0)), !.conns[w].tail = FALSE], w), p, "disc.sigmid")
+                               EXCEPT !.online = FALSE, !.loc[p].err = ""], "conn.Write", o)
+          ELSE Mv([G(CloseC(PayW(s, w, o), w), p, "disc.sigmid") EXCEPT !.online = FALSE, !.loc[p].err = "submit"], "conn.Write", o)
+          : o \in WriteOutcomes(s, w)} \cup Partial(s, w)
+    [] at = "disc.sigmid" ->    \* clearSignalChan(offlineSig) ; close(writeSem) ; close(connSem) ; return
+         {Mv(NextOp([s EXCEPT !.offline = TRUE, !.writeSem = CLOSED, !.connSem = CLOSED], p, "Disconnect", L.err), "disc.sigmid", "ok")}
     [] OTHER -> {}
 
 (* ----------------------------------------------------------------------- *)
@@ -576,6 +645,7 @@ BrokerReact(s, c) ==
        [] p.t = "PUBREL" -> [reply(<<Pk("PUBCOMP", p.id, 0, FALSE, 0)>>) EXCEPT !.broker.awaiting = @ \ {p.id}]
        [] p.t = "PINGREQ" -> reply(<<Pk("PINGRESP", 0, 0, FALSE, 0)>>)
        [] p.t = "SUBSCRIBE" -> reply(<<Pk("SUBACK", p.id, 0, FALSE, 0)>>)
+       [] p.t = "UNSUBSCRIBE" -> reply(<<Pk("UNSUBACK", p.id, 0, FALSE, 0)>>)
        [] OTHER -> reply(<<>>)
 
 BrokerMoves(s) ==
@@ -639,10 +709,13 @@ Adopt(S) ==
 \* records lost or altered while the process is down: a removed record is simply gone, an altered one fails its
 \* checksum, is deleted by AdoptSession and reported
 Damages(s) ==
-  IF s.damaged >= MaxDamage THEN {[store |-> s.store, n |-> 0, w |-> 0, keys |-> <<>>, how |-> "none"]}
-  ELSE {[store |-> s.store, n |-> 0, w |-> 0, keys |-> <<>>, how |-> "none"]} \cup
-       {[store |-> Del(s.store, k), n |-> 1, w |-> IF h = "flip" THEN 1 ELSE 0, keys |-> <<k>>, how |-> h]
-        : k \in {x \in DOMAIN s.store : ~IsMark(x)}, h \in {"remove", "flip"}}
+  LET out == {x \in DOMAIN s.store : ~IsMark(x)}
+      left == MaxDamage - s.damaged
+      sets == {D \in SUBSET out : D # {} /\ Cardinality(D) <= left}
+      without(D) == [k \in DOMAIN s.store \ D |-> s.store[k]]
+  IN {[store |-> s.store, n |-> 0, w |-> 0, keys |-> <<>>, how |-> "none"]} \cup
+     {[store |-> without(D), n |-> Cardinality(D), w |-> IF h = "flip" THEN Cardinality(D) ELSE 0, keys |-> SetToSeq(D), how |-> h]
+      : D \in sets, h \in {"remove", "flip"}}
 
 Restarts(s) ==
   IF s.stops >= MaxStops THEN {}
@@ -666,11 +739,32 @@ MovesOf(s, p) ==
   ELSE IF p \in {"term1", "term2"} THEN TermMoves(s, p)
   ELSE IF s.pc[p] = "idle" THEN {}
   ELSE IF Ops(p)[s.loc[p].op].m = "Close" THEN CloseMoves(s, p)
-  ELSE IF Ops(p)[s.loc[p].op].m \in {"Publish", "Ping", "Subscribe"} THEN ReqMoves(s, p)
+  ELSE IF Ops(p)[s.loc[p].op].m = "Disconnect" THEN DiscMoves(s, p)
+  ELSE IF Ops(p)[s.loc[p].op].m \in {"Publish", "Ping", "Subscribe", "Unsubscribe"} THEN ReqMoves(s, p)
   ELSE PubMoves(s, p)
 
-\* a move of p, settled to the next gate of the read routine where needed
-Settled(mv) == LET r == SettleAll(mv.s) IN IF r.ok THEN {[mv EXCEPT !.s = AbortWake(r.s)]} ELSE {}
+\* a process blocked on the write semaphore (after it closed the connection to interrupt the holder) gets it
+SemWake(s) ==   \* (channel receivers are served in the order they blocked)
+  IF s.writeSem = HELD \/ s.wq = <<>> THEN {}
+  ELSE LET p == Head(s.wq) IN {TakeW([s EXCEPT !.wq = Tail(@)], p, s.loc[p].blk)}
+WriteGates == {"k.wconn", "rs.write", "wn.write", "wn.write1", "wn.write2", "lw.write1", "lw.write", "disc.wio"}
+ConnAt(s, p) == IF p = "rd" /\ s.pc[p] \in {"k.wconn", "rs.write"} THEN s.loc[p].conn ELSE s.loc[p].val
+
+\* A move of p, settled to the next gate of the read routine where needed.  A process that comes to a write on a
+\* connection which was closed meanwhile does not get as far as Write: SetWriteDeadline fails first, so the failure
+\* branch of that write is taken within the same move.  (A process that is already inside Write when the connection
+\* gets closed stays at its gate and is released with the outcome "closed".)
+RECURSIVE Norm(_, _)
+Norm(s, p) ==
+  LET r == SettleAll(s) IN
+  IF ~r.ok THEN r
+  ELSE IF r.s.pc[p] \in WriteGates /\ ConnAt(r.s, p) >= 1 /\ r.s.conns[ConnAt(r.s, p)].closed
+       THEN Norm((CHOOSE mv \in MovesOf(r.s, p) : mv.o = "closed").s, p)
+       ELSE r
+\* Go hands a released semaphore to a goroutine that is blocked on it at once: nobody else can slip in between.
+RECURSIVE EagerSem(_)
+EagerSem(s) == IF SemWake(s) = {} THEN {s} ELSE UNION {EagerSem(t) : t \in SemWake(s)}   \* (a closed semaphore releases every waiter)
+Settled(mv, p) == LET r == Norm(mv.s, p) IN IF r.ok THEN {[mv EXCEPT !.s = s3] : s3 \in EagerSem(AbortWake(r.s))} ELSE {}
 
 \* The scalar projection that VerifSnapshot takes of the real client (verif_on.go); the replay compares it after every step.
 SemName(v) == CASE v = PENDING -> "pending" [] v = DOWN -> "down" [] v = HELD -> "held" [] v = CLOSED -> "closed"
@@ -680,17 +774,19 @@ Proj(s) == [acked |-> s.acked, received |-> s.received, completed |-> s.complete
             accept1 |-> SeqVal(s, 1, s.acceptN[1]), accept2 |-> SeqVal(s, 2, s.acceptN[2]),
             submit1 |-> SeqVal(s, 1, s.submitN[1]), submit2 |-> SeqVal(s, 2, s.submitN[2]),
             q1 |-> Len(s.queue[1]), q2 |-> Len(s.queue[2]), pack |-> (s.pack # NoPk \/ s.pc["rd"] = "c.save"),   \* onPUBREC composes the PUBREL in pendingAck before the Save
-            wsem |-> SemName(s.writeSem), csem |-> SemName(s.connSem),
-            ping |-> IF s.pingSlot = "" THEN 0 ELSE 1, utx |-> Cardinality(DOMAIN s.subs),
+            \* (a process blocked on the write semaphore takes it the instant it is released)
+            wsem |-> SemName(s.writeSem),
+            csem |-> SemName(s.connSem),
+            ping |-> IF s.pingSlot = NoSlot THEN 0 ELSE 1, utx |-> Cardinality(DOMAIN s.subs),
             online |-> s.online, offline |-> s.offline]
 
 Init == st = St0 /\ hist = <<>>
 
 ProcStep(p) ==
-  \E mv \in MovesOf(st, p) : \E m2 \in Settled(mv) :
+  \E mv \in MovesOf(st, p) : \E m2 \in Settled(mv, p) :
      /\ st' = m2.s
      /\ hist' = IF RecordHist THEN Append(hist, [p |-> p, at |-> m2.at, o |-> m2.o, x |-> Proj(m2.s)]) ELSE hist
-Wake == \E s2 \in TermWake(st) \cup ReqWake(st) : st' = s2 /\ UNCHANGED hist
+Wake == \E s2 \in TermWake(st) \cup ReqWake(st) \cup SemWake(st) : st' = s2 /\ UNCHANGED hist
 BrokerStep == \E b \in BrokerMoves(st) : st' = b.s /\ hist' = IF RecordHist THEN Append(hist, [env |-> "brecv", c |-> b.c, respond |-> TRUE]) ELSE hist
 
 PublishStep == \E b \in PublishMoves(st) : st' = b.s /\ hist' = IF RecordHist THEN Append(hist, [env |-> "bsend", c |-> b.c, pkt |-> b.pk]) ELSE hist
@@ -702,7 +798,9 @@ RestartStep == \E r \in Restarts(st) :
                         \o <<[env |-> "adopt", gen |-> r.s.gen, nwarn |-> r.nwarn, x |-> Proj(r.s)]>>
               ELSE hist
 
-Next == (\E p \in Procs : ProcStep(p)) \/ Wake \/ BrokerStep \/ PublishStep \/ RestartStep
+QuitStep == \E q \in QuitMoves(st) : st' = q.s /\ hist' = IF RecordHist THEN Append(hist, [env |-> "quit", p |-> q.p]) ELSE hist
+
+Next == (\E p \in Procs : ProcStep(p)) \/ Wake \/ BrokerStep \/ PublishStep \/ RestartStep \/ QuitStep
 Spec == Init /\ [][Next]_vars
 
 (* Fairness: every goroutine that can move eventually does (strongly fair: Go hands a channel value to a     *)
@@ -710,7 +808,7 @@ Spec == Init /\ [][Next]_vars
 Fairness == (\A p \in Procs : SF_vars(ProcStep(p))) /\ WF_vars(Wake) /\ WF_vars(BrokerStep) /\ WF_vars(PublishStep)
 LiveSpec == Spec /\ Fairness
 
-Closers == {p \in Writers : \E i \in DOMAIN Ops(p) : Ops(p)[i].m = "Close"}
+Closers == {p \in Writers : \E i \in DOMAIN Ops(p) : Ops(p)[i].m \in {"Close", "Disconnect"}}
 Budgeted == st.calls < MaxCalls      \* the application still invokes ReadSlices
 \* C10: the read routine always gets back to a point where it waits for input, for its next invocation, or has ended
 C10_ReaderProgress == []<>(st.pc["rd"] \in {"call", "r.read", "idle", "t.join"})
@@ -744,8 +842,13 @@ C03_ExactlyOnceDelivery ==  \* no exactly-once message is forwarded twice
 C05_WireOrderIsIdOrder == \A c \in DOMAIN st.conns : Ascending(PubIds(c, 1)) /\ Ascending(PubIds(c, 2))
 \* C08: a packet is incomplete on a connection only while its writer is between the two buffers of its vectored write,
 \* or the connection has been closed because that write failed (or died with the process)
-C08_WholePackets == \A c \in DOMAIN st.conns : (st.conns[c].tail /\ ~st.conns[c].dead /\ ~st.conns[c].closed)
-                        => \E p \in Writers : st.pc[p] \in {"wn.write2", "lw.write"} /\ st.loc[p].val = c
+\* C08: once a packet was left incomplete on a connection (its writer gave up), nothing further is written there
+WriterOn(s, c) == \E p \in Writers \cup {"rd"} : s.pc[p] \in WriteGates /\ ConnAt(s, p) = c
+Abandoned(s, c) == s.conns[c].tail /\ ~WriterOn(s, c)
+C08_NothingAfterIncomplete ==
+  [][\A c \in DOMAIN st.conns : Abandoned(st, c) => (c \in DOMAIN st'.conns /\ st'.conns[c].c2b = st.conns[c].c2b /\ st'.conns[c].tail)]_vars
+\* and only one process at a time is inside a write on a connection
+C08_WholePackets == \A c \in DOMAIN st.conns : Cardinality({p \in Writers \cup {"rd"} : st.pc[p] \in WriteGates /\ ConnAt(st, p) = c}) <= 1
 C12_Signals == ~(st.online /\ st.offline)
 \* C04 (design): an exactly-once message whose marker is saved is not returned again before PUBREL
 Returned(tag) == Cardinality({i \in DOMAIN st.rets["rd"] : st.rets["rd"][i].err = "msg" /\ st.rets["rd"][i].m = tag})
@@ -775,5 +878,5 @@ C16_ResendFindsRecords == st.pc["rd"] = "rs.load" => Has(st.store, KeyOf(st.loc[
 C16_NoKeyCollision == \A p \in Writers : st.pc[p] = "q.save" =>
    LET l == LevelOf(Ops(p)[st.loc[p].op].m) IN ~Has(st.store, KeyOf(l, st.acceptN[l]))
 C16_PendingAreStored == \A l \in 1..2 : \A i \in DOMAIN st.queue[l] : \E k \in DOMAIN st.store : ~IsMark(k) /\ st.store[k].tag = st.queue[l][i]
-TypeOK == st.writeSem \in {PENDING, DOWN, HELD, CLOSED} \cup (1..MaxConns) /\ st.connSem \in {NILCONN, HELD, CLOSED} \cup (1..MaxConns)
+TypeOK == (st.wq # <<>> => st.writeSem = HELD) /\ st.writeSem \in {PENDING, DOWN, HELD, CLOSED} \cup (1..MaxConns) /\ st.connSem \in {NILCONN, HELD, CLOSED} \cup (1..MaxConns)
 =============================================================================
